@@ -40,6 +40,13 @@ Theorem C02_pool_reads_are_the_reviewed_ones :
   forallb (fun r => mem (eff_origin r) expected_pool_readers) (filter on_pool effective_sql) = true.
 Proof. exact sync_pool_reads_expected. Qed.
 
+(* ... and on SQLite's atomic commit, which needs the rollback journal (or WAL) on disk and synchronous
+   writes: the PRAGMA values of the connection the code opens, regenerated on every run *)
+Theorem C02_journal_is_on_disk : check_journal_on_disk = true.
+Proof. exact journal_on_disk. Qed.
+Theorem C02_synchronous_writes : check_synchronous_on = true.
+Proof. exact synchronous_on. Qed.
+
 Example C02_example :
   (* a run of the example chain with a failed attempt, a crash and an API request thrown in *)
   exists n, reach ex_cfg ({| n_db := genesis; n_mem := empty_cache |}, ex_chain) (n, skipn 2 ex_chain) /\
